@@ -105,6 +105,10 @@ def k_sixty_day_hours(eng):
         holder.update(ctx=ctx)
         rec = Rec(ctx, "self", "SixtyCycleDay")
         sd = rec.field(fields.index("solar_day"), "SolarDay")
+        # the day-level view's own pillars, should a body copy them into the slots: components of a view at an offset nothing is known about
+        DL = ctx.fresh_value("offset_at_which_an_instant_view_would_have_the_day_level_pillars", "isize")
+        for f in ("month", "day"):
+            rec.fields[fields.index(f)] = PartOf("day." + f, DL)
         model = ctx.model
         base = model.call
         prev = PrevDay()
@@ -122,6 +126,8 @@ def k_sixty_day_hours(eng):
                 return {path: x.t} if isinstance(x, InstV) else None
             if isinstance(x, PartOf):
                 return {path: x.t} if x.f == path else None
+            if path == "hour" and type(x).__name__ == "Obj" and getattr(x, "kind", None) == "SixtyCycle":
+                return {}       # an hour pillar assembled by name: its value is 09.a's subject, not checked here
             if isinstance(x, Rec) and getattr(x, "named", None) and path in SUB and set(x.named) == set(SUB[path]):
                 out = {}
                 for f, y in x.named.items():
